@@ -605,6 +605,24 @@ func (r *hlslRules) condExpr(c *checker, x *Cond) Expr {
 	return sel
 }
 
+// index: operator[] on object types (textures, structured buffers) is valid
+// HLSL that is not modelled; a non-integer index is converted (HLSL allows
+// any numeric scalar as an index, with a warning for float).
+func (r *hlslRules) index(c *checker, x *Index) Expr {
+	xt := x.X.base().T
+	if xt.Kind == KOpaque {
+		c.unsupported(x.Pos, "operator[] on %s", hlslTypeName(xt))
+	}
+	it := x.I.base().T
+	if it != tInt && it != tUint && it.IsScalar() {
+		to := tInt
+		if e := c.convertTo(x.I, to); e != nil {
+			x.I = e
+		}
+	}
+	return nil
+}
+
 // checkSwitch: FXC error X3533 "non-empty case statements must have break or
 // return": flagged only when a non-empty case group clearly runs into the
 // next label (its last statement is an expression or declaration statement).
@@ -778,6 +796,9 @@ func (r *hlslRules) functionDecl(c *checker, fn *Function) {
 		if p.TypeX.Struct != nil {
 			c.invalid(p.Pos, "syntax", "structure definition in a parameter list")
 		}
+	}
+	if hlslObjectTypes[hlslBaseTypeName(fn.RetX.Name)] {
+		c.unsupported(fn.Pos, "function %s returning object type %s", fn.Name, fn.RetX.Name)
 	}
 	c.function(fn)
 	for _, p := range fn.Params {
